@@ -18,6 +18,16 @@ ENABLE_SAME_EDGES = True        # axes with element-wise identical bins whose pe
 ENABLE_PER_AXIS_ARGS = True     # per-axis lists of arguments (method names, bin_count, bin_width, range, q ...) on equal extents
 ENABLE_LAYOUT = True            # memory layouts of the row-wise input x every binning method name; the input stays untouched
 SHARE_SAME_EDGES, SHARE_PER_AXIS_ARGS, SHARE_LAYOUT = 0.14, 0.10, 0.15
+ENABLE_COLUMNS_ND = True        # column-wise input (h2 / h3 lists) whose columns are multi-dimensional and differ in memory layout
+SHARE_COLUMNS_ND = 0.13
+# h2(X, Y, weights=W) with X, Y, W of one multi-dimensional shape and dropna on (the default) is refused by the unchanged library
+# ("Weights array shape ((m, k)) != expected ((m*k,))": the columns are flattened, the weights are not); with dropna=False, or
+# with weights of length m*k, the call is accepted. Until that is triaged the acceptance of such a call is not demanded (if it
+# is accepted, the counts are checked all the same).
+EXPECT_ND_WEIGHTS_WITH_DROPNA = False
+# h3([X, Y, Z]) with multi-dimensional X, Y, Z is refused by the unchanged library (it stacks item[:, np.newaxis]); the wording
+# of h3 promises "three different arrays (for each component)" only: acceptance not demanded, counts checked when accepted
+EXPECT_H3_ND_COLUMNS = False
 
 # every method name the N-d facade accepts (physt.binnings.binning_methods + bincount_methods); 'static' needs a `bins=`
 # keyword that collides with the facade's own parameter and is reachable through arrays of edges only
@@ -31,6 +41,9 @@ METHODS_CONFIDENT = {"numpy", "fixed_width", "integer", "default", "sturges", "r
 LAYOUTS_COLUMN_CONTIGUOUS = ["F", "T", "Frows"]                      # every column is one contiguous run of memory
 LAYOUTS_OTHER = ["C", "rowstep", "colslice", "rev", "Frev", "colrev"]
 PAD = 12345.0
+# layouts of one multi-dimensional column (lay_out_col); 'df' = 2-D DataFrame.values (column-major), 'list' = nested lists
+COL_LAYOUTS_CORE = ["C", "F", "T", "rev", "colslice", "allrev", "df", "list"]
+COL_LAYOUTS = COL_LAYOUTS_CORE + ["rowstep", "Frows", "Frev", "colrev"]
 
 
 # ----------------------------------------------------------------------------- the extended `construct` op on the real library
@@ -135,6 +148,62 @@ def lay_out_1d(w: np.ndarray, lay: dict):
     return v, base
 
 
+def lay_out_col(a: np.ndarray, lay: dict):
+    """(object handed to physt, array owning the memory or None) holding exactly the values of the C-ordered array `a` of any
+    number of dimensions at the same POSITIONS (v[idx] == a[idx]); only the place of the values in memory differs"""
+    kind = lay.get("k", "C")
+    dt = np.dtype(lay["dtype"]) if "dtype" in lay else a.dtype
+    src = np.ascontiguousarray(a.astype(dt))
+    nd = src.ndim
+    sh = src.shape
+    if kind == "list":                      # nested Python lists
+        v = src.tolist()
+        if not np.array_equal(np.asarray(v, dtype=float).reshape(sh), a.astype(float), equal_nan=True):
+            raise AssertionError(f"layout {lay} does not hold the values (generator bug)")
+        return v, None
+    if kind == "C":
+        base = src.copy(); v = base
+    elif kind == "F":
+        base = np.asfortranarray(src); v = base
+    elif kind == "T":                       # a transposed view (all axes reversed)
+        base = np.ascontiguousarray(src.T); v = base.T
+    elif kind == "rowstep":                 # every second slab of a larger array
+        base = np.full((2 * sh[0] + 1,) + sh[1:], 77, dtype=dt); base[1::2] = src; v = base[1::2]
+    elif kind == "colslice":                # a window of a wider array (last axis)
+        base = np.full(sh[:-1] + (sh[-1] + 2,), 77, dtype=dt); base[..., 1:sh[-1] + 1] = src; v = base[..., 1:sh[-1] + 1]
+    elif kind == "Frows":                   # some slabs of a column-major array
+        base = np.full((sh[0] + 2,) + sh[1:], 77, dtype=dt, order="F"); base[1:sh[0] + 1] = src; v = base[1:sh[0] + 1]
+    elif kind == "rev":
+        base = np.ascontiguousarray(src[::-1]); v = base[::-1]
+    elif kind == "Frev":
+        base = np.asfortranarray(src[::-1]); v = base[::-1]
+    elif kind == "colrev":
+        base = np.ascontiguousarray(src[..., ::-1]); v = base[..., ::-1]
+    elif kind == "allrev":                  # reversed along every axis
+        every = (slice(None, None, -1),) * nd
+        base = np.ascontiguousarray(src[every]); v = base[every]
+    elif kind == "df":                      # the 2-D .values of a DataFrame built from columns (column-major block)
+        import pandas as pd
+        if nd != 2:
+            raise ValueError("layout 'df' needs a 2-D column")
+        v = pd.DataFrame({j: src[:, j] for j in range(sh[1])}).values if sh[1] else src.copy()
+        v = v.astype(dt, copy=False)
+        base = v if v.base is None else v.base
+        if not isinstance(base, np.ndarray):
+            base = v
+    else:
+        raise ValueError(kind)
+    if lay.get("ro"):
+        v.flags.writeable = False
+        try:
+            base.flags.writeable = False
+        except ValueError:
+            pass
+    if not (v.shape == sh and v.dtype == dt and np.array_equal(v.astype(float), a.astype(float), equal_nan=True)):
+        raise AssertionError(f"layout {lay} does not hold the values (generator bug)")
+    return v, base
+
+
 def _state(x):
     """what must be bit-for-bit the same after the call: memory, geometry and type of an array handed to physt"""
     if x is None:
@@ -163,6 +232,9 @@ def run_construct(op: dict, log: list) -> dict:
     d = int(op["d"]) if "d" in op else len(op["axes"])
     data = implnd.rows_arr(op["rows"], d)
     entry = op.get("entry", "h")
+    cols = op.get("cols")
+    if cols:
+        return _run_construct_columns(op, log, s, call, d, data, entry, cols)
     v, base = lay_out(data, op.get("layout") or {})
     given = v
     if entry == "list":
@@ -201,6 +273,63 @@ def run_construct(op: dict, log: list) -> dict:
         inp["rows_after"] = [[None if x != x else rs(float(x)) for x in row] for row in np.asarray(v, dtype=float).tolist()]
     if not inp["weights_intact"]:
         inp["weights_after"] = [None if x != x else rs(float(x)) for x in np.asarray(w, dtype=float).tolist()]
+    return {"ret": ret, "regs": [None if x is None else snap_ext(x) for x in s.regs], "_sharing": _sharing(s.regs), "_input": inp}
+
+
+def _call_args(op, call):
+    kw = {"dropna": op.get("dropna", True)}
+    if op.get("names") is not None:
+        kw["axis_names"] = op["names"]
+    if call is None:
+        bins = [mk_binning(b) for b in op["axes"]]
+    else:
+        jb = call["bins"]
+        bins = [mk_item(x) for x in jb["axes"]] if "axes" in jb else mk_item(jb)
+        for k, val in (call.get("kw") or {}).items():
+            kw[k] = dec(val)
+    return bins, kw
+
+
+def _run_construct_columns(op, log, s, call, d, data, entry, cols):
+    """column-wise entry with columns of any number of dimensions: column j holds data[:, j] reshaped (C order) to
+    cols["shape"], laid out in memory as cols["lays"][j]; the weights have the same shape (layout cols["wlay"]) or, with
+    {"flat": true}, are the 1-D array of length n. Row k of `rows` is thus (x.flat[k], y.flat[k], ...) with weights.flat[k]."""
+    from physt import h2, h3
+    shape = tuple(int(x) for x in cols["shape"])
+    pieces = [lay_out_col(data[:, j].reshape(shape), cols["lays"][j]) for j in range(d)]
+    given = [p[0] for p in pieces]
+    w = wbase = None
+    if op.get("weights") is not None:
+        warr = arr(op["weights"], np.dtype(op.get("wkind") or "float64"))
+        wl = cols.get("wlay") or {}
+        if wl.get("flat"):
+            w, wbase = lay_out_1d(warr, wl)
+        else:
+            w, wbase = lay_out_col(warr.reshape(shape), wl)
+    held = [x for p in pieces for x in (p[1], p[0])]
+    before = [_state(x) for x in held] + [_state(wbase), _state(w)]
+    try:
+        bins, kw = _call_args(op, call)
+        if entry == "h2" and d == 2:
+            r = h2(given[0], given[1], bins, weights=w, **kw)
+        elif entry == "h3cols" and d == 3:
+            r = h3(list(given), bins, weights=w, **kw)
+        else:
+            raise AssertionError(f"no column-wise entry {entry!r} for d = {d} (generator bug)")
+        s.set(op["out"], r)
+        ret = "ok"
+    except AssertionError:
+        raise
+    except Exception as e:
+        log.append(f"construct: {type(e).__name__}: {e}"[:200])
+        ret = REFUSED
+    after = [_state(x) for x in held] + [_state(wbase), _state(w)]
+    inp = {"data_intact": before[:-2] == after[:-2], "weights_intact": before[-2:] == after[-2:]}
+    if not inp["data_intact"]:
+        now = np.column_stack([np.asarray(g, dtype=float).reshape(-1) for g in given])
+        inp["rows_after"] = [[None if x != x else rs(float(x)) for x in row] for row in now.tolist()]
+    if not inp["weights_intact"]:
+        inp["weights_after"] = [None if x != x else rs(float(x)) for x in np.asarray(w, dtype=float).reshape(-1).tolist()]
     return {"ret": ret, "regs": [None if x is None else snap_ext(x) for x in s.regs], "_sharing": _sharing(s.regs), "_input": inp}
 
 
@@ -603,6 +732,177 @@ def gen_layout(rng):
     return {"kind": "histn", "ops": [op], "tags": tags}
 
 
+# ------------------------------------------------------------------------ column-wise input with multi-dimensional columns
+def _shapes_of(n):
+    """every way of arranging n observations in an array of 2 or 3 dimensions"""
+    two = [(m, n // m) for m in range(1, n + 1) if n % m == 0]
+    three = [(a, b, (n // a) // b) for a in range(1, n + 1) if n % a == 0 for b in range(1, n // a + 1) if (n // a) % b == 0]
+    return two, three
+
+
+def _col_shape(rng, n):
+    """(shape, tag): mostly a proper 2-D arrangement (both sides >= 2), sometimes 3-D, a single row / column, or 1-D"""
+    if n == 0:
+        return rng.choice([(0, 3), (2, 0), (0,)]), "empty"
+    two, three = _shapes_of(n)
+    proper2 = [sh for sh in two if min(sh) >= 2]
+    proper3 = [sh for sh in three if sorted(sh)[1] >= 2]
+    r = rng.random()
+    if r < 0.07:
+        return (n,), "1d"
+    if r < 0.14:
+        return rng.choice([(1, n), (n, 1)]), "2d_thin"
+    if r < 0.32 and proper3:
+        return rng.choice(proper3), "3d"
+    if proper2:
+        return rng.choice(proper2), "2d"
+    return rng.choice(two), "2d_thin"
+
+
+def _col_layout(rng, ndim, pool, integer_ok, f32_ok, list_ok=True):
+    kinds = [k for k in pool if (k != "df" or ndim == 2) and (k != "list" or list_ok)]
+    lay = {"k": rng.choice(kinds)}
+    r = rng.random()
+    if integer_ok and r < 0.2:
+        lay["dtype"] = rng.choice(["int64", "int64", "int32", "int16"])
+    elif f32_ok and r < 0.3:
+        lay["dtype"] = "float32"
+    if rng.random() < 0.15 and lay["k"] != "list":
+        lay["ro"] = True
+    return lay
+
+
+def _columns_layouts(rng, op, d, shape, tags, f32_ok, list_ok=True):
+    """the memory layout of every column, of the weights; dropna; what the generator vouches for (`expect`)"""
+    rows = op["rows"]
+    ndim = len(shape)
+    int_ok = [all(v is not None and Fraction(v).denominator == 1 and abs(Fraction(v)) < 2 ** 14 for v in c) for c in zip(*rows)] \
+        if rows else [False] * d
+    pattern = rng.choice(["mixed", "mixed", "mixed", "same", "one_differs"])
+    column_major = ["F", "T", "df", "Frev", "Frows", "allrev", "rev"]
+    if pattern == "mixed":
+        lays = [_col_layout(rng, ndim, COL_LAYOUTS + ["C", "F", "T"], int_ok[j], f32_ok, list_ok) for j in range(d)]
+    elif pattern == "same":                 # all columns alike (and not C-ordered): the weights are what may differ
+        first = _col_layout(rng, ndim, column_major, False, False, list_ok)
+        lays = [dict(first) for _ in range(d)]
+    else:                                   # all C-ordered but one
+        lays = [{"k": "C"} for _ in range(d)]
+        lays[rng.randrange(d)] = _col_layout(rng, ndim, column_major + ["colslice", "rowstep", "colrev"], False, f32_ok, list_ok)
+    has_nan = any(v is None for r in rows for v in r)
+    cols = {"shape": list(shape), "lays": lays}
+    dropna = True
+    if rng.random() < ((0.55 if op["weights"] is not None else 0.35) if not has_nan else 0.1):
+        dropna = False
+    expect = op.get("expect", "ok")
+    if op["weights"] is not None:
+        if rng.random() < (0.8 if dropna else 0.15):
+            cols["wlay"] = {"flat": True, "k": rng.choice(["C", "C", "step", "rev"])}
+        else:
+            # (an empty nested list carries no element type: `[]` is float64 to numpy whatever the weights were meant to be)
+            cols["wlay"] = _col_layout(rng, ndim, COL_LAYOUTS + ["C", "C", "F", "T"], False, False, list_ok=bool(rows))
+            if dropna and ndim >= 2:
+                tags.append("ndweights_dropna_on")
+                if not EXPECT_ND_WEIGHTS_WITH_DROPNA:
+                    expect = "any"
+        if rng.random() < 0.15 and cols["wlay"]["k"] != "list":
+            cols["wlay"]["ro"] = True
+        tags.append("wlay:" + ("flat/" if cols["wlay"].get("flat") else "") + cols["wlay"]["k"])
+    if not dropna:
+        op["dropna"] = False
+        tags.append("dropna:off")
+    if has_nan:
+        tags.append("nan")
+    if d == 3 and ndim >= 2 and not EXPECT_H3_ND_COLUMNS:
+        expect = "any"
+    op["cols"] = cols
+    op["expect"] = expect
+    op["entry"] = "h2" if d == 2 else "h3cols"
+    op["names"] = [f"n{i}" for i in range(d)]
+    tags.append("collay:" + "+".join(l["k"] + ("/" + l["dtype"] if "dtype" in l else "") for l in lays))
+    orders = {("C" if l["k"] in ("C", "list", "colslice", "rowstep") else "other") for l in lays}
+    if len(orders) > 1 and ndim >= 2 and min(shape) >= 2:
+        tags.append("orders_differ")
+
+
+def gen_columns_nd(rng):
+    """h2(x, y) / h3([x, y, z]) whose columns are arrays of one multi-dimensional shape lying differently in memory (C- /
+    Fortran-ordered, transposed / strided / reversed views, DataFrame.values, nested lists), weights of that shape (or flat) in
+    a layout of their own, dropna on / off, NaN present or not. Observation k is (x.flat[k], y.flat[k]) with weights.flat[k]."""
+    d = 2 if rng.random() < 0.85 else 3
+    tags = ["stream:columns_nd", "d:%d" % d]
+    mode = rng.choice(["explicit", "explicit", "method"])
+    if mode == "method":
+        positive = rng.random() < 0.3
+        integer = rng.random() < 0.4
+        pool = ["numpy", "numpy", "quantile", "fixed_width", "integer", "int", "int", "edges", "edges", "human", "sqrt"] + \
+            (["exponential"] if positive else [])
+        uniform = rng.random() < 0.4
+        names_per_axis = [rng.choice([p for p in pool if p != "edges"])] * d if uniform else [rng.choice(pool) for _ in range(d)]
+        n = rng.choice([4, 6, 8, 9, 12, 12, 16, 18, 20, 24, 30])
+        rows, lo, hi, step, m = _grid_rows(rng, d, names_per_axis, positive, integer, n, 0.15)
+        if not integer and rng.random() < 0.2:
+            a = rng.randrange(d)
+            rows[rng.randrange(n)] = [gen1.NAN if i == a else lo + step for i in range(d)]
+        call, mtags = _method_call(rng, d, names_per_axis, lo, hi, uniform)
+        tags += mtags + ["bins:method"]
+        op = {"op": "construct", "out": 0, "d": d, "axes": [None] * d, "call": call, "rows": gennd.enc_rows(rows)}
+        op["expect"] = "ok" if _confident(names_per_axis, rows) else "any"
+        f32_ok = True
+    else:
+        axs = [gennd.axis_binning(rng, maxbins=4) for _ in range(d)]
+        n = rng.choice([0, 4, 4, 6, 6, 8, 9, 12, 12, 15, 16, 18, 20, 24, 27, 30])
+        if rng.random() < 0.5:
+            rows = rows_on_edges(rng, [a[1] for a in axs], n)
+            rng.shuffle(rows)
+            rows = rows[:n]
+        else:
+            rows = gennd.rows_for(rng, [a[1] for a in axs], n, nan_share=0.04)
+        tags.append("bins:explicit")
+        if any(gen1.is_consecutive_exact(a[1]) is False for a in axs):
+            tags.append("gapped")
+        op = {"op": "construct", "out": 0, "d": d, "axes": [a[0] for a in axs], "rows": gennd.enc_rows(rows), "expect": "ok"}
+        f32_ok = False
+    n = len(op["rows"])
+    ws, wk = gen1.weights_for(rng, n, kinds=["none", "none", "int", "int", "dyadic", "dyadic", "zeros"])
+    op["weights"] = None if ws is None else [rs(w) for w in ws]
+    op["wkind"] = wk
+    if ws is not None:
+        tags.append("weighted")
+    shape, stag = _col_shape(rng, n)
+    tags.append("colshape:" + stag)
+    _columns_layouts(rng, op, d, shape, tags, f32_ok, list_ok=(d == 2 and n > 0))
+    return {"kind": "histn", "ops": [op], "tags": tags}
+
+
+EXH_COL_SHAPE = (3, 4)
+EXH_COL_X = [0.5, 0.25, 0.75, 1.0, 1.5, 1.25, 2.5, 2.0, 2.75, 3.5, 4.0, 4.5]       # cells 0,0,0,1,1,1,2,2,2,3,3 (closed), outside
+EXH_COL_Y = [0.5, 1.0, 2.5, 0.0, 1.5, 3.0, 0.25, 1.25, 2.0, 0.75, 1.75, 3.5]       # cells 0,1,2,0,1,out,0,1,2,0,1,out
+EXH_COL_W = [0.5, 1.0, 1.5, 2.0, 2.5, 3.0, 3.5, 4.0, 4.5, 5.0, 5.5, 6.0]
+EXH_COL_WLAYS_QUICK = [None, {"k": "C"}, {"k": "F"}, {"k": "T"}, {"k": "list"}, {"flat": True, "k": "step"}]
+EXH_COL_WLAYS = EXH_COL_WLAYS_QUICK + [{"k": "df"}, {"k": "allrev"}, {"k": "colslice"}, {"flat": True, "k": "C"}]
+
+
+def case_columns(lx, ly, wl, dropna, nan_at=None):
+    """the same twelve observations as two (3, 4) columns lying in memory as lx / ly, weights as wl (None: unweighted)"""
+    xs, ys = list(EXH_COL_X), list(EXH_COL_Y)
+    if nan_at is not None:
+        xs[nan_at] = gen1.NAN
+    rows = [[x, y] for x, y in zip(xs, ys)]
+    axes = [gen1.binning_json([[0.0, 1.0], [1.0, 2.0], [2.0, 3.0], [3.0, 4.0]], ire=True, form="static_obj"),
+            gen1.binning_json([[0.0, 1.0], [1.0, 2.0], [2.0, 3.0]], ire=False, form="static_obj")]
+    op = {"op": "construct", "out": 0, "d": 2, "axes": axes, "rows": gennd.enc_rows(rows), "names": ["n0", "n1"], "entry": "h2",
+          "weights": None, "wkind": None, "expect": "ok", "cols": {"shape": list(EXH_COL_SHAPE), "lays": [dict(lx), dict(ly)]}}
+    if wl is not None:
+        op["weights"] = [rs(w) for w in EXH_COL_W]
+        op["wkind"] = "float64"
+        op["cols"]["wlay"] = dict(wl)
+        if dropna and not wl.get("flat") and not EXPECT_ND_WEIGHTS_WITH_DROPNA:
+            op["expect"] = "any"
+    if not dropna:
+        op["dropna"] = False
+    return {"kind": "histn", "ops": [op], "tags": ["exhaustive:columns_nd", "collay:%s+%s" % (lx["k"], ly["k"])]}
+
+
 # ------------------------------------------------------------------------------------------------ exhaustive small scopes
 def case_same_edges(d, flags, form):
     """d axes over the SAME bins [0, 1), [1, 2) declaring `flags`; rows on / one ulp beside the last edge of each axis in turn"""
@@ -659,7 +959,7 @@ def case_layout(lay, name, kw, one_axis, weighted):
 
 class C02(HistNProp):
     ID = "C02"
-    N_QUICK = 640
+    N_QUICK = 740
     N_THOROUGH = 19000
     RULE = ("h / h2 / h3 calls with d = 2..4 explicit per-axis binnings (static right-closed, static right-open, fixed-width "
             "right-open, gapped, tiny gaps, 1-4 bins per axis, different counts per axis; as edges / pairs / binning objects) x "
@@ -670,7 +970,12 @@ class C02(HistNProp):
             "lists), rows exactly on / one ulp beside the last edge of each axis in turn; stream per_axis_args: per-axis lists "
             "of method names, ints, edges and keywords (bin_count, bin_width, range, q, qrange, includes_right_edge, adaptive) on "
             "columns of equal extent; stream layout: row-wise input C / F-ordered / transposed / strided / reversed / read-only / "
-            "integer / float32 x every binning method name x weights (strided, read-only) x dropna; every case: the arrays handed "
+            "integer / float32 x every binning method name x weights (strided, read-only) x dropna; stream columns_nd: h2(x, y) / "
+            "h3([x, y, z]) with columns of one multi-dimensional shape (2-D, 3-D, thin, 1-D, empty) each in a memory layout of its "
+            "own (C, F, transposed, strided, reversed, DataFrame.values, nested lists, int / float32, read-only), weights of that "
+            "shape or flat in a third layout, dropna on / off, NaN or not: observation k is (x.flat[k], y.flat[k]) with "
+            "weights.flat[k]; exhaustively layout of x x layout of y x layout of the weights x dropna on twelve fixed "
+            "observations; every case: the arrays handed "
             "over are bit-for-bit unchanged afterwards. non-trivial = at least one row inside a cell and one missed; distinct = op-list hash")
     FIELDS = {"bins", "shape", "freq", "err2", "missed", "total", "dtype", "names", "ndim"}
 
@@ -688,9 +993,13 @@ class C02(HistNProp):
         right-edge declarations the returned histogram reports (which bins a method chooses is C07's subject), except on the
         axes whose bins the specification fixes; a refused call of that kind has no model counterpart."""
         op = case["ops"][0]
+        out = io["outs"][0]
+        if op.get("cols") and op.get("expect") == "any" and out["ret"] != "ok":
+            # (multi-dimensional weights with dropna on, h3 with multi-dimensional columns: whether the facade takes the call
+            # is not pinned and the model, which sees rows and weights only, cannot say)
+            return None
         if op.get("call") is None:
             return case
-        out = io["outs"][0]
         if out["ret"] != "ok" or not out["regs"] or out["regs"][0] is None:
             return None
         snap = out["regs"][0]
@@ -714,7 +1023,8 @@ class C02(HistNProp):
         t = 0.0
         for on, share, gen in ((ENABLE_SAME_EDGES, SHARE_SAME_EDGES, gen_same_edges),
                                (ENABLE_PER_AXIS_ARGS, SHARE_PER_AXIS_ARGS, gen_per_axis_args),
-                               (ENABLE_LAYOUT, SHARE_LAYOUT, gen_layout)):
+                               (ENABLE_LAYOUT, SHARE_LAYOUT, gen_layout),
+                               (ENABLE_COLUMNS_ND, SHARE_COLUMNS_ND, gen_columns_nd)):
             t += share
             if on and t - share <= r < t:
                 return gen(rng)
@@ -782,6 +1092,21 @@ class C02(HistNProp):
                         for one_axis in ([False, True] if tier == "thorough" else [False]):
                             for weighted in ([False, True] if tier == "thorough" else [False]):
                                 out.append(case_layout(lay, name, kw, one_axis, weighted))
+        if ENABLE_COLUMNS_ND:
+            kinds = COL_LAYOUTS if tier == "thorough" else COL_LAYOUTS_CORE
+            for lx in kinds:
+                for ly in kinds:
+                    for wl in (EXH_COL_WLAYS if tier == "thorough" else EXH_COL_WLAYS_QUICK):
+                        for dropna in (True, False):
+                            out.append(case_columns({"k": lx}, {"k": ly}, wl, dropna))
+                    if tier == "thorough":
+                        for wl in (None, {"flat": True, "k": "rev"}, {"k": "F"}):
+                            for dropna in (True, False):
+                                out.append(case_columns({"k": lx}, {"k": ly}, wl, dropna, nan_at=5))
+            for lx, ly in (("C", "F"), ("F", "C"), ("T", "df"), ("F", "F")):            # other element types / read-only
+                for extra in ({"dtype": "float32"}, {"ro": True}):
+                    out.append(case_columns(dict({"k": lx}, **extra), {"k": ly}, {"k": "C"}, False))
+                    out.append(case_columns({"k": lx}, dict({"k": ly}, **extra), None, True))
         return out
 
     # ------------------------------------------------------------------------------------------- shrinking / neighbourhood
@@ -795,8 +1120,62 @@ class C02(HistNProp):
                 op["expect"] = "any"
         return case
 
+    def _shrink_columns(self, case):
+        """a multi-dimensional column-wise case stays rectangular: drop the last slab along one axis (rows and weights with
+        it), drop the weights, simplify one layout at a time"""
+        op = case["ops"][0]
+        cols = op["cols"]
+        shape = [int(x) for x in cols["shape"]]
+        n = len(op["rows"])
+        weighted = op.get("weights") is not None
+        if n and weighted and len(op["weights"]) != n:
+            return
+        idx = np.arange(n).reshape(shape)
+        for ax in range(len(shape)):
+            for cut in ([shape[ax] - 1, 0] if shape[ax] > 1 else []):
+                keep = np.delete(idx, cut, axis=ax).reshape(-1).tolist()
+                c = copy.deepcopy(case)
+                o = c["ops"][0]
+                o["rows"] = [op["rows"][i] for i in keep]
+                if weighted:
+                    o["weights"] = [op["weights"][i] for i in keep]
+                o["cols"]["shape"][ax] = shape[ax] - 1
+                yield self._recheck(c)
+        if weighted:
+            c = copy.deepcopy(case)
+            c["ops"][0]["weights"] = None; c["ops"][0]["wkind"] = None; c["ops"][0]["cols"].pop("wlay", None)
+            yield c
+        where = [("lays", j) for j in range(len(cols["lays"]))] + ([("wlay", None)] if cols.get("wlay") else [])
+        for key, j in where:
+            lay = cols[key] if j is None else cols[key][j]
+
+            def put(**changes):
+                c = copy.deepcopy(case)
+                tgt = c["ops"][0]["cols"][key] if j is None else c["ops"][0]["cols"][key][j]
+                for k, v in changes.items():
+                    if v is None:
+                        tgt.pop(k, None)
+                    else:
+                        tgt[k] = v
+                return c
+            if lay.get("ro"):
+                yield put(ro=None)
+            if "dtype" in lay:
+                yield put(dtype=None)
+            if lay.get("flat"):
+                if lay.get("k", "C") != "C":
+                    yield put(k="C")
+            elif lay.get("k", "C") not in ("C", "F"):
+                yield put(k="C")
+                yield put(k="F")
+            elif lay.get("k", "C") == "F" and sum(1 for l in cols["lays"] if l.get("k", "C") != "C") > 1:
+                yield put(k="C")
+
     def shrink_candidates(self, case):
         op = case["ops"][0]
+        if op.get("cols"):
+            yield from self._shrink_columns(case)
+            return
         for j in range(len(op["rows"])):
             c = copy.deepcopy(case)
             del c["ops"][0]["rows"][j]
@@ -823,6 +1202,18 @@ class C02(HistNProp):
         0, and in the column-contiguous layouts"""
         op = case["ops"][0]
         d = int(op["d"]) if "d" in op else len(op["axes"])
+        if op.get("cols"):
+            # the same observations with the columns (and weights) lying in memory in every combination of C / F / transposed
+            ndim = len(op["cols"]["shape"])
+            flat = (op["cols"].get("wlay") or {}).get("flat")
+            for kinds in itertools.product(["C", "F", "T"], repeat=d):
+                for wk in ([None] if (op.get("weights") is None or flat) else ["C", "F"]):
+                    c = copy.deepcopy(case)
+                    c["ops"][0]["cols"]["lays"] = [{"k": k} for k in kinds]
+                    if wk is not None:
+                        c["ops"][0]["cols"]["wlay"] = {"k": wk}
+                    yield c
+            return
         specs = op.get("axes") or []
         if op.get("call") is None and all(s is not None for s in specs):
             pairs = [[(float(l), float(r)) for l, r in _spec_pairs(s)] for s in specs]
@@ -873,6 +1264,14 @@ class C02(HistNProp):
         op = case["ops"][0]
         out = io["outs"][0]
         fails = self._oracle_counts(op, out, io)
+        if fails and op.get("cols"):
+            cols = op["cols"]
+            note = (f" [column-wise input: {len(cols['lays'])} columns of shape {tuple(cols['shape'])}, memory layouts "
+                    f"{[l.get('k', 'C') + ('/' + l['dtype'] if 'dtype' in l else '') for l in cols['lays']]}"
+                    + (f", weights {'flat ' if cols['wlay'].get('flat') else ''}{cols['wlay'].get('k', 'C')}" if cols.get("wlay") else "")
+                    + f", dropna={op.get('dropna', True)}; observation k is (x.flat[k], y.flat[k], ...) with weights.flat[k] = "
+                      "row k of `rows`]")
+            fails = [f + note for f in fails]
         inp = out.get("_input")
         if inp is not None:
             # the rows the caller passed are the rows counted -- and still the caller's rows afterwards
